@@ -669,7 +669,11 @@ void profile_history(RunCtx& ctx)
     int arena = AM_MALLOC;
     if (!(ctx.simplify & SIMP_NOARENA)) {
         int a = rng.below(10);
-        arena = a < 5 ? AM_MALLOC : (a < 7 ? AM_ARENA_UP : (a < 9 ? AM_ARENA_DOWN : AM_PAD));
+        arena = a < 4 ? AM_POOL : (a < 5 ? AM_MALLOC : (a < 7 ? AM_ARENA_UP : (a < 9 ? AM_ARENA_DOWN : AM_PAD)));
+#if SIM_ASAN
+        if (arena == AM_POOL)
+            arena = AM_MALLOC;
+#endif
     }
     std::vector<std::vector<HOp>> sessions(nsessions);
     std::vector<int> client_of(nsessions);
